@@ -153,6 +153,21 @@ def check(spec, ctx):
     for key, pos in dummy_pos.items():
         positions[nodes_to_idx[key]] = pos
         model[key] = pos.copy()
+    if spec["rng"] % 3 == 0:
+        # an earlier engine in the same process with the same residue type names but other sizes, queried once:
+        # nothing of it may show in the engine under test
+        try:
+            other = {k: (v[0] * 1.37, v[1] * 2.0) for k, v in inter.items()}
+            pos0 = np.ones((3, 3)) * np.inf
+            pos0[0] = np.array([1.0, 1.0, 1.0])
+            pos0[1] = np.array([1.5, 1.0, 1.0])
+            early = NonBondEngine(pos0, {(0, 0): 0, (0, 1): 1, (1, 0): 2}, ["S0", "S1", "S2"], other, None, None,
+                                  cut_off * 1.37, box)
+            early.compute_force_point(np.array([1.2, 1.4, 1.0]), 1, 0, exclude=[])
+            early.compute_force_point(np.array([1.3, 0.6, 1.0]), 0, 0, exclude=[])
+        except Exception as err:
+            raise crash("construct:crash", err)
+        ctx.label("after_another_engine_with_other_sizes")
     try:
         engine = NonBondEngine(positions, nodes_to_idx, atypes, inter, None, None, cut_off, box)
     except Exception as err:
